@@ -57,3 +57,25 @@ def gen_rle(ctx):
         "end PsdVerif.Generated.Rle\n",
     )
     return {"maxLenPy": max_py, "maxLenPyx": max_pyx}
+
+
+def gen_terms(ctx):
+    """The immutable set of known 4-byte descriptor terms (descriptor._TERMS), as big-endian codes."""
+    import importlib
+    D = importlib.import_module("psd_tools.psd.descriptor")
+    terms = getattr(D, "_TERMS", None)
+    if terms is None:
+        raise Infra("descriptor._TERMS not found")
+    codes = sorted(int.from_bytes(t, "big") for t in terms if len(t) == 4)
+    odd = sorted(t.hex() for t in terms if len(t) != 4)
+    rows = ",\n  ".join(", ".join(str(c) for c in codes[i:i + 12]) for i in range(0, len(codes), 12))
+    ctx.write_generated(
+        "Terms",
+        "namespace PsdVerif.Generated.Terms\n"
+        "/-- `descriptor._TERMS` at import time: 4-byte terms as big-endian numbers, sorted -/\n"
+        f"def termCodes : List Nat := [\n  {rows}\n]\n"
+        f"/-- is the term set an immutable type (frozenset/tuple)? -/\ndef termsImmutable : Bool := {'true' if isinstance(terms, (frozenset, tuple)) else 'false'}\n"
+        f"/-- number of terms that are not 4 bytes long (expected 0) -/\ndef oddTerms : Nat := {len(odd)}\n"
+        "end PsdVerif.Generated.Terms\n",
+    )
+    return {"terms": len(codes), "immutable": isinstance(terms, (frozenset, tuple)), "odd": odd}
